@@ -70,9 +70,43 @@ def scripts_for(tier, rng):
     return out
 
 
+def callback_scripts():
+    """C15 (callback clause): bursts of watcher events against a small event queue, and callback errors."""
+    out, k = [], 0
+    # the watcher's own callback: bursts of events against a small event queue, and callback errors
+    for init in (["a"], ["a", "b"], []):
+        for cap in (1, 2, 1024):
+            for emit in (0, 1, 2, 3, 5):
+                for err in (0, 1, 2):
+                    if emit == 0 and err == 0:
+                        continue
+                    out.append(dict(id="u%05d" % k, origin="callback-burst", ev_cap=cap, init_paths=init,
+                                    steps=[dict(at="idle", k=0, emit=emit, emit_err=err),
+                                           dict(at="idle", k=0, set_paths=["b"]),
+                                           dict(at="idle", k=0, emit=emit, emit_err=0)]))
+                    k += 1
+    return out
+
+
+def run_scripts(scripts, name):
+    """Run fs scripts against the real worker and validate them with FsTrace. -> (tracefile, acc, rej, stats, total)"""
+    d = vlib.workdir("drv_" + name)
+    sp, tp = os.path.join(d, "scripts.ndjson"), os.path.join(d, "traces.ndjson")
+    with open(sp, "w") as f:
+        for s in scripts:
+            f.write(json.dumps(s) + "\n")
+    p = subprocess.run([os.path.join(vlib.BIN, "fs_driver"), sp, tp, "--threads", "12"],
+                       stdout=subprocess.PIPE, stderr=subprocess.STDOUT, text=True, timeout=3600)
+    if p.returncode != 0:
+        sys.stderr.write(p.stdout[-3000:])
+        raise vlib.ToolError("fs_driver failed")
+    acc, rej, stats, total = vlib.validate_traces("FsTrace.tla", "FsTrace.cfg", tp, "val_" + name, shards=12)
+    return tp, acc, rej, stats, total
+
+
 def nontrivial(s):
     return any(st["at"] == "call" for st in s["steps"]) or s.get("fail_watch") or s.get("fail_unwatch") \
-        or any(st.get("set_kind") for st in s["steps"])
+        or any(st.get("set_kind") or st.get("emit") or st.get("emit_err") for st in s["steps"])
 
 
 def run(prop, tier, replay=None):
